@@ -330,6 +330,13 @@ func (e *Engine) freshPtr(v ssa.Value, depth int) bool {
 		return e.freshPtr(x.X, depth+1)
 	case *ssa.ChangeInterface:
 		return e.freshPtr(x.X, depth+1)
+	case *ssa.UnOp:
+		// a variable kept in a cell (a closure reads it): the one store that reaches this load
+		if al, ok := x.X.(*ssa.Alloc); ok && x.Op == token.MUL && !e.versionsOf(al).volatile {
+			if val, _ := e.cellValue(x, al); val != nil {
+				return e.freshPtr(val, depth+1)
+			}
+		}
 	}
 	return false
 }
@@ -587,16 +594,7 @@ func (w *World) reachesEval(ci ssa.CallInstruction) (bool, string) {
 				if vals, ok := w.fieldStores(fa); ok {
 					external := len(vals) > 0
 					for _, v := range vals {
-						ext := false
-						if ex, isEx := v.(*ssa.Extract); isEx {
-							if cc, isC := ex.Tuple.(*ssa.Call); isC && cc.Call.StaticCallee() != nil && !strings.HasPrefix(fnPkgPath(cc.Call.StaticCallee()), modPath) {
-								ext = true
-							}
-						}
-						if f, isF := v.(*ssa.Function); isF && !strings.HasPrefix(fnPkgPath(f), modPath) {
-							ext = true
-						}
-						if !ext {
+						if !w.externalFuncValue(v, 0) {
 							external = false
 						}
 					}
@@ -667,6 +665,18 @@ func (w *World) paramFuncValues(p *ssa.Parameter) ([]*ssa.Function, bool) {
 					out = append(out, g.Fn.(*ssa.Function))
 				case *ssa.Function:
 					out = append(out, g)
+				case *ssa.Parameter:
+					// handed on from the caller's own function-typed parameter (Update -> updateNT)
+					if w.pfvDepth > 3 {
+						return nil, false
+					}
+					w.pfvDepth++
+					more, ok := w.paramFuncValues(g)
+					w.pfvDepth--
+					if !ok {
+						return nil, false
+					}
+					out = append(out, more...)
 				default:
 					return nil, false
 				}
@@ -924,6 +934,8 @@ func objectWritesRule(w *World, r *Report, e *Engine, rule string) {
 				r.ok(rule, a.fn, construct, instrPos(a.in), "write lock "+key+" held")
 			case e.freshPtr(a.fa.X, 0):
 				r.ok(rule, a.fn, construct, instrPos(a.in), "object allocated in this activation, not yet shared")
+			case freshAtEveryCall(w, e, a.fa.X):
+				r.ok(rule, a.fn, construct, instrPos(a.in), "an unexported initialiser: every caller hands it an object it has just allocated")
 			default:
 				r.bad(rule, a.fn, construct, instrPos(a.in), "a field of an object that programs share by reference is assigned without its mutex ("+key+"; held: "+held.String()+"): an evaluation that was only handed the object changes it for every other evaluation, and the unsynchronised write races with their reads")
 			}
@@ -968,6 +980,19 @@ func tableEscapeRule(w *World, r *Report, rule string) {
 				case ssa.CallInstruction:
 					if bi, ok := u.Common().Value.(*ssa.Builtin); ok && (bi.Name() == "len" || bi.Name() == "delete" || bi.Name() == "clear") {
 						continue
+					}
+					// a function of the same package that only looks the table up, ranges over it or measures it
+					if sc := u.Common().StaticCallee(); sc != nil && sc.Pkg == a.fn.Pkg && sc.Parent() == nil && sc.Object() != nil && !sc.Object().Exported() && len(sc.Blocks) > 0 && depth < 3 {
+						handed := false
+						for i, arg := range u.Common().Args {
+							if arg == v && i < len(sc.Params) {
+								handed = true
+								follow(sc.Params[i], depth+1)
+							}
+						}
+						if handed {
+							continue
+						}
 					}
 					escape = "passed to " + describeCallInstr(nil, u)
 				case *ssa.Return:
@@ -1024,8 +1049,28 @@ func updateAtomicRule(w *World, r *Report, e *Engine, rule string) {
 		if len(cb) == 0 {
 			continue
 		}
+		// a lock-free body (the *NT convention): entered with the write lock of the same scope held at every call
+		heldAtEntry := false
+		if fn.Object() != nil && !fn.Object().Exported() {
+			sites := e.callSites(fn)
+			heldAtEntry = len(sites) > 0
+			for _, cs := range sites {
+				if cs.Common().IsInvoke() || len(cs.Common().Args) == 0 {
+					heldAtEntry = false
+					continue
+				}
+				ckey := e.keyOf(cs.Common().Args[0]).String() + "." + ro.envMu
+				if e.locks(cs.Parent()).before[cs][ckey] < 2 {
+					heldAtEntry = false
+				}
+			}
+		}
 		for _, in := range cb {
 			n++
+			if heldAtEntry {
+				r.ok(rule, fn, "call of the caller's function", in.Pos(), "the method is only entered with the scope's write lock held (checked at its call sites)")
+				continue
+			}
 			r.check(li.before[in][key] >= 2, rule, fn, "call of the caller's function", in.Pos(), "write lock "+key+" held", "the function that computes the new value runs without the scope's write lock (held: "+li.before[in].String()+"): between reading the old value and storing the new one another goroutine's update gets in, and one of the two is lost (a function bound concurrently is missing from the registry)")
 		}
 		// the accesses on the same receiver around it
@@ -1039,9 +1084,93 @@ func updateAtomicRule(w *World, r *Report, e *Engine, rule string) {
 					continue
 				}
 				n++
+				if heldAtEntry {
+					r.ok(rule, fn, "access to the binding: "+c.Call.StaticCallee().Name(), in.Pos(), "inside the caller's write-locked section")
+					continue
+				}
 				r.check(li.before[in][key] >= 2, rule, fn, "access to the binding: "+c.Call.StaticCallee().Name(), in.Pos(), "inside the write-locked section", "the binding is read or written outside the critical section of the update (held: "+li.before[in].String()+"): read, compute and store are separate steps that another goroutine can interleave")
 			}
 		}
 	}
 	r.floor(rule, "calls made by the read-modify-write methods of a scope", n, 3)
+}
+
+// freshAtEveryCall: v is a parameter of an unexported function or method of the module, and at every call
+// site the argument is an object allocated in the caller's activation (an initialiser split off a constructor).
+func freshAtEveryCall(w *World, e *Engine, v ssa.Value) bool {
+	p, ok := v.(*ssa.Parameter)
+	if !ok || p.Parent() == nil || p.Parent().Object() == nil || p.Parent().Object().Exported() {
+		return false
+	}
+	args := w.callSiteArgs(p)
+	if len(args) == 0 {
+		return false
+	}
+	for _, a := range args {
+		if !e.freshPtr(a, 0) {
+			return false
+		}
+	}
+	return true
+}
+
+// externalFuncValue: the function value comes from outside the module (a result of a call of a function of
+// another module such as context.WithCancel, or such a function itself) - also when it arrives through a
+// parameter of an unexported function whose every caller passes such a value.
+func (w *World) externalFuncValue(v ssa.Value, depth int) bool {
+	if depth > 3 {
+		return false
+	}
+	switch x := v.(type) {
+	case *ssa.Extract:
+		if cc, ok := x.Tuple.(*ssa.Call); ok && cc.Call.StaticCallee() != nil && !strings.HasPrefix(fnPkgPath(cc.Call.StaticCallee()), modPath) {
+			return true
+		}
+	case *ssa.Function:
+		return !strings.HasPrefix(fnPkgPath(x), modPath)
+	case *ssa.Parameter:
+		if x.Parent() == nil || x.Parent().Object() == nil || x.Parent().Object().Exported() {
+			return false
+		}
+		args := w.callSiteArgs(x)
+		if len(args) == 0 {
+			return false
+		}
+		for _, a := range args {
+			if !w.externalFuncValue(a, depth+1) {
+				return false
+			}
+		}
+		return true
+	case *ssa.Phi:
+		for _, ed := range x.Edges {
+			if !w.externalFuncValue(ed, depth+1) {
+				return false
+			}
+		}
+		return len(x.Edges) > 0
+	}
+	return false
+}
+
+// arrivesAs: v is target, or a parameter of an unexported function that is handed target (in the same sense)
+// at every call site.
+func (w *World) arrivesAs(v, target ssa.Value, depth int) bool {
+	if v == target {
+		return true
+	}
+	p, ok := v.(*ssa.Parameter)
+	if !ok || depth > 3 || p.Parent() == nil || p.Parent().Object() == nil || p.Parent().Object().Exported() {
+		return false
+	}
+	args := w.callSiteArgs(p)
+	if len(args) == 0 {
+		return false
+	}
+	for _, a := range args {
+		if !w.arrivesAs(a, target, depth+1) {
+			return false
+		}
+	}
+	return true
 }
